@@ -362,6 +362,12 @@ def storePredicates (d : DState) (s : Store) : DState := Id.run do
       | none => pure ()
       d := { d with predCache := (index, info.metric, info.dims, info.capHist, mine) :: d.predCache.filter (·.1 != index) }
       d := d.props "C01" (Check.forestValid c s)
+      -- what `forestValid` does not look at (`Checkers.lean`): a built, non-empty index has at least one tree
+      match s.get c.metaKey with
+      | some (.metadata _ _ items roots) =>
+        if !items.isEmpty && roots.isEmpty then
+          d := d.prop "C15" s!"index {index}: the metadata lists {items.length} items and no tree"
+      | _ => pure ()
       match info.capHist with
       | some (some cap) => d := d.props "C15" (Check.capacityOk c s cap)
       | _ => pure ()
